@@ -27,7 +27,7 @@ extern "Rust" {
     fn __rust_alloc(size: usize, align: usize) -> *mut u8;
     fn __rust_dealloc(ptr: *mut u8, size: usize, align: usize);
 }
-pub const NOBJ: usize = 6;
+pub const NOBJ: usize = 3;
 #[derive(Copy, Clone)]
 pub struct Obj {
     pub addr: usize,
@@ -311,13 +311,6 @@ fn hook(_k: &mut K, n: usize, a: &[usize; 6]) -> Option<usize> {
                     kernel_clear_tid();
                     return Some(0);
                 }
-                if t.cloned && !t.child_started && t.may_run_child_in_wait {
-                    run_child();
-                    if t.exit_pending {
-                        kernel_clear_tid();
-                    }
-                    return Some(0);
-                }
                 assert!(false, "join/drop waits on the exit futex although no thread will ever clear it: it never returns");
                 kani::assume(false);
                 Some(0)
@@ -340,10 +333,12 @@ fn hook(_k: &mut K, n: usize, a: &[usize; 6]) -> Option<usize> {
 
 pub fn setup(faults: bool) {
     let k = ks();
+    k.model_no_faults();
     if faults {
-        k.model_with_one_fault();
-    } else {
-        k.model_no_faults();
+        // "failure of each system call spawn performs": the stack mmap (call 0) or the clone (call 1), any errno
+        let at: u8 = kani::any();
+        kani::assume(at <= 2);
+        k.fail_mask = if at == 2 { 0 } else { 1u32 << at };
     }
     k.hook = Some(hook);
     k.max_calls = 16;
@@ -421,7 +416,15 @@ unsafe fn finale() {
 /// order 0: the child runs to completion (kernel exit effects included) before the parent's next step
 /// order 1: the child makes all its user-space steps first, the kernel's clear-tid write + wake lands while the parent waits
 /// order 2: the parent acts first; the child runs when the parent blocks (join) or after the parent is done (drop)
-unsafe fn scenario<T: PartialEq + Copy + Send + kani::Arbitrary + 'static>(faults: bool, spurious: u8, panic_allowed: bool) {
+pub struct Info {
+    pub spawned: bool,
+    pub mmap_failed: bool,
+    pub clone_failed: bool,
+    pub panics: bool,
+    pub join: bool,
+    pub order: u8,
+}
+unsafe fn scenario<T: PartialEq + Copy + Send + kani::Arbitrary + 'static>(faults: bool, spurious: u8, panic_allowed: bool, covers: fn(&Info)) {
     setup(faults);
     let t = th();
     // the main thread's TLS block as start.rs sets it up: self pointer, no stack info (two words + Option<ThreadDealloc>)
@@ -451,8 +454,7 @@ unsafe fn scenario<T: PartialEq + Copy + Send + kani::Arbitrary + 'static>(fault
     let h = match r {
         Ok(h) => h,
         Err(_) => {
-            kani::cover!(k.count_failed(nr::MMAP) == 1, "spawn fails because the stack cannot be mapped");
-            kani::cover!(k.count_failed(nr::CLONE) == 1, "spawn fails because clone fails");
+            covers(&Info { spawned: false, mmap_failed: k.log[0].nr == nr::MMAP && k.log[0].failed, clone_failed: k.log[1].nr == nr::CLONE && k.log[1].failed, panics, join, order });
             assert!(k.n_failed == 1, "spawn fails only when a system call it makes failed");
             assert!(!t.cloned && t.runs == 0, "no thread was created");
             assert!(!t.stack_live, "a failed spawn leaves no stack mapping behind");
@@ -462,19 +464,15 @@ unsafe fn scenario<T: PartialEq + Copy + Send + kani::Arbitrary + 'static>(fault
     };
     assert!(t.cloned, "spawn returned a handle although no thread was created: its join can never return");
     t.handle = Box::into_raw(Box::new(h)) as usize;
-    kani::cover!(panics && join, "panicking thread, joined");
-    kani::cover!(!panics && !join && order == 2, "handle dropped before the thread finished");
-    kani::cover!(!panics && join && order == 1, "thread exits while the parent waits in join");
+    covers(&Info { spawned: true, mmap_failed: false, clone_failed: false, panics, join, order });
     if order == 2 {
-        if join {
-            kani::assume(!panics); // a panicking child cannot be resumed from inside the parent's system call in this sequential model; order 1 covers it
-            t.may_run_child_in_wait = true;
-            parent_action::<T>(true, v);
-        } else {
-            parent_action::<T>(false, v);
-            t.cont = Some(finale_fn);
-            run_child();
-        }
+        // the parent's compare-exchange comes first.  Only a dropped handle makes one; a join that starts before the
+        // child has done anything only loads the exit futex and parks, which commutes with the child's user-space steps
+        // (they never write that word): join-first is order 1
+        kani::assume(!join);
+        parent_action::<T>(false, v);
+        t.cont = Some(finale_fn);
+        run_child();
         finale();
     } else {
         t.defer_exit = order == 1;
@@ -508,35 +506,55 @@ fn finale_fn() {
     unsafe { finale() }
 }
 
-// @ob C05 quick thread_u32 fns=thread::spawn,JoinHandle::join,JoinHandle::drop,Tsm::init,Tsm::dealloc,on_panic,start_fn,futex_wait_fast bound="one thread; result type u32 (value symbolic); closure returns or panics; handle joined or dropped; 3 non-commuting orders; no spurious futex return; no system-call failure" timeout=1800
-#[kani::proof]
-#[kani::stub(tiny_std::thread::spawn::__clone, clone_model)]
-#[kani::stub(core::fmt::write, stub_fmt_write)]
-#[kani::stub(alloc::alloc::alloc, alloc_model)]
-#[kani::stub(alloc::alloc::dealloc_nonnull, dealloc_model)]
-#[kani::unwind(8)]
-fn thread_u32() {
-    unsafe { scenario::<u32>(false, 0, true) }
+fn covers_plain(i: &Info) {
+    kani::cover!(i.panics && i.join, "panicking thread, joined");
+    kani::cover!(i.panics && !i.join && i.order == 2, "handle dropped first, then the thread panics");
+    kani::cover!(!i.panics && !i.join && i.order == 2, "handle dropped before the thread finished");
+    kani::cover!(!i.panics && i.join && i.order == 1, "thread exits while the parent waits in join");
+    kani::cover!(!i.panics && !i.join && i.order == 1, "thread exits while the parent's drop waits for it");
+}
+fn covers_nopanic(i: &Info) {
+    kani::cover!(!i.join && i.order == 2, "handle dropped before the thread finished");
+    kani::cover!(i.join && i.order == 1, "thread exits while the parent waits in join");
+}
+fn covers_faults(i: &Info) {
+    kani::cover!(!i.spawned && i.mmap_failed, "spawn fails because the stack cannot be mapped");
+    kani::cover!(!i.spawned && i.clone_failed, "spawn fails because clone fails");
+    kani::cover!(i.spawned && i.join, "no failure: thread joined");
 }
 
-// @ob C05 quick thread_u32_spurious fns=futex_wait_fast,JoinHandle::join,JoinHandle::drop bound="as thread_u32, plus at most one spurious return (0 or EINTR) of a FUTEX_WAIT that would have parked" timeout=2400
-#[kani::proof]
-#[kani::stub(tiny_std::thread::spawn::__clone, clone_model)]
-#[kani::stub(core::fmt::write, stub_fmt_write)]
-#[kani::stub(alloc::alloc::alloc, alloc_model)]
-#[kani::stub(alloc::alloc::dealloc_nonnull, dealloc_model)]
-#[kani::unwind(8)]
-fn thread_u32_spurious() {
-    unsafe { scenario::<u32>(false, 1, false) }
+macro_rules! thread_harness {
+    ($name:ident, $t:ty, $faults:expr, $spurious:expr, $panic:expr, $covers:expr, $unwind:expr) => {
+        #[kani::proof]
+        #[kani::stub(tiny_std::thread::spawn::__clone, clone_model)]
+        #[kani::stub(core::fmt::write, stub_fmt_write)]
+        #[kani::stub(alloc::alloc::alloc, alloc_model)]
+        #[kani::stub(alloc::alloc::dealloc_nonnull, dealloc_model)]
+        #[kani::unwind($unwind)]
+        fn $name() {
+            unsafe { scenario::<$t>($faults, $spurious, $panic, $covers) }
+        }
+    };
 }
 
-// @ob C05 quick thread_u32_faults fns=thread::spawn bound="as thread_u32 (closure does not panic), and at most one of the system calls made fails with an arbitrary errno" timeout=2400
-#[kani::proof]
-#[kani::stub(tiny_std::thread::spawn::__clone, clone_model)]
-#[kani::stub(core::fmt::write, stub_fmt_write)]
-#[kani::stub(alloc::alloc::alloc, alloc_model)]
-#[kani::stub(alloc::alloc::dealloc_nonnull, dealloc_model)]
-#[kani::unwind(8)]
-fn thread_u32_faults() {
-    unsafe { scenario::<u32>(true, 0, false) }
-}
+// Every obligation below checks the C05 assertions (closure runs once, join waits for the exit and returns the value / None,
+// failed spawn returns an error) and the C06 assertions (stack, TLS block, join state released exactly once, never
+// under a party that can still touch them, nothing left behind) together; they are listed under both properties.
+// @ob C05 quick thread_u32 fns=thread::spawn,JoinHandle::join,JoinHandle::drop,wait_until_finished,Tsm::init,Tsm::dealloc,Tsm::layout_thread_shared_memory,on_panic,start_fn,onwed_split_fn_once,futex_wait_fast bound="one thread; result type u32 (value symbolic); closure returns or panics; handle joined or dropped; the 3 orders that do not commute; no spurious futex return; no system-call failure" timeout=2400 mem=30 stubs="__clone (global_asm trampoline) -> clone_model; core::fmt::write; alloc::alloc::alloc/dealloc_nonnull -> same allocation plus bookkeeping"
+thread_harness!(thread_u32, u32, false, 0, true, covers_plain, 4);
+// @ob C06 quick thread_u32 fns=thread::spawn,JoinHandle::join,JoinHandle::drop,on_panic,Tsm::dealloc bound="as C05 thread_u32: every order of {returns, panics} x {joined, dropped before / while / after the thread finishes} for one thread" timeout=2400 mem=30
+// @ob C05 quick thread_u32_spurious fns=wait_until_finished,futex_wait_fast,JoinHandle::join,JoinHandle::drop bound="as thread_u32 without panic, plus at most one spurious return (0 or EINTR) of a FUTEX_WAIT that would have parked" timeout=2400 mem=30
+thread_harness!(thread_u32_spurious, u32, false, 1, false, covers_nopanic, 4);
+// @ob C06 quick thread_u32_spurious fns=wait_until_finished,JoinHandle::drop bound="as C05 thread_u32_spurious" timeout=2400 mem=30
+// @ob C05 quick thread_u32_faults fns=thread::spawn,drop_boxed_fn_once bound="as thread_u32 without panic, and the stack mmap or the clone fails with an arbitrary errno" timeout=2400 mem=30
+thread_harness!(thread_u32_faults, u32, true, 0, false, covers_faults, 4);
+// @ob C06 quick thread_u32_faults fns=thread::spawn bound="as C05 thread_u32_faults: a failed spawn leaves no mapping and no allocation behind" timeout=2400 mem=30
+// result layouts: zero-sized, over-aligned (64), 16-byte
+// @ob C05 thorough thread_unit fns=thread::spawn,JoinHandle::join,Tsm::value_offset bound="as thread_u32, result type () (zero-sized)" timeout=3000 mem=30
+thread_harness!(thread_unit, (), false, 0, true, covers_plain, 4);
+// @ob C05 thorough thread_over_aligned fns=thread::spawn,JoinHandle::join,Tsm::value_offset,Tsm::layout_thread_shared_memory bound="as thread_u32, result type #[repr(align(64))] struct (over-aligned)" timeout=3000 mem=30
+thread_harness!(thread_over_aligned, Over, false, 0, true, covers_plain, 4);
+// @ob C05 thorough thread_u128 fns=thread::spawn,JoinHandle::join bound="as thread_u32, result type u128" timeout=3000 mem=30
+thread_harness!(thread_u128, u128, false, 0, true, covers_plain, 4);
+// @ob C05 thorough thread_u32_spurious2 fns=wait_until_finished,futex_wait_fast bound="as thread_u32 with panic, plus at most two spurious futex returns" timeout=3400 mem=30
+thread_harness!(thread_u32_spurious2, u32, false, 2, true, covers_plain, 6);
